@@ -119,6 +119,23 @@ def RS.defLocal (rs : RS) (name : String) : RS :=
 def RS.defGlobal (rs : RS) (name : String) : RS :=
   { rs with ng := rs.ng + 1, vis := (name, rs.ng) :: rs.vis }
 
+/-- the builtin functions of the fragment: the pure ones, which `Builtins.call` models -/
+def pureBuiltins : List String :=
+  ["len", "first", "last", "rest", "push", "pop", "get", "contains", "insert", "str", "int", "float", "char", "byte",
+   "tolower", "toupper", "is_error", "sort", "chars", "join", "round"]
+
+/-- the index `GetBuiltinFn` carries: the position in the builtin table (`BUILTINFNS`, generated) -/
+def builtinIndex (name : String) : Option Nat :=
+  if pureBuiltins.contains name then P2sh.Gen.Builtins.fns.findIdx? (·.1 == name) else none
+
+/-- some user binding of `name` is in force (a slot, the own name, a captured name or a name being
+defined in a function being recognised, a visible global): it hides the builtin of that name.  The
+real symbol table keeps the builtin at the bottom of the name's stack of definitions in the
+outermost table, so a name no user binding covers resolves to the builtin — also after a block
+that shadowed it has ended, and from inside any function. -/
+def isBound (fs : List FScope) (vis : Vis) (name : String) : Bool :=
+  fs.any (fun f => f.locals.any (·.1 == name) || f.frees.any (·.1 == name)) || vis.any (·.1 == name)
+
 def isFnLit : Expr → Bool
   | .fn .. => true
   | _ => false
@@ -131,7 +148,10 @@ def paramBinds : Nat → List String → List (String × LBind) → List (String
 
 mutual
 def linesE : FExpr → List Nat
-  | .lit l _ | .tru l | .fls l | .null l | .gget l _ | .lget l _ | .curr l | .fget l _ => [l]
+  | .lit l _ | .tru l | .fls l | .null l | .gget l _ | .lget l _ | .curr l | .fget l _ | .bfn l _ => [l]
+  | .arrLit l es | .mapLit l es => linesArgs es ++ [l]
+  | .index l c i => linesE c ++ linesE i ++ [l]
+  | .setIndex l c i e => linesE e ++ linesE c ++ linesE i ++ [l]
   | .un l _ e => linesE e ++ [l]
   | .bin l _ a b => linesE a ++ linesE b ++ [l]
   | .lt l a b | .le l a b => linesE b ++ linesE a ++ [l]
@@ -256,7 +276,9 @@ def ofFE : Nat → Nat → RS → Expr → Option (FExpr × RS)
        | some (.l i, fs) => some (.lget l i, { rs with fs := fs })
        | some (.self, fs) => some (.curr l, { rs with fs := fs })
        | some (.f j, fs) => some (.fget l j, { rs with fs := fs })
-       | none => none)
+       | none =>
+         -- no user binding: a builtin function called (or passed around) by name
+         if isBound rs.fs rs.vis name then none else (builtinIndex name).map (fun i => (.bfn l i, rs)))
     | .assign _ (.ident l name _) rhs => do
       -- the right-hand side is compiled before the target is resolved;
       -- assigning to the function's own name is a compile error ("Invalid lvalue")
@@ -274,6 +296,23 @@ def ofFE : Nat → Nat → RS → Expr → Option (FExpr × RS)
       let (f', r1) ← ofFE fuel k rs f
       let (as', r2) ← ofFArgs fuel (k + (constsE f').length) r1 args
       pure (.call l f' as', r2)
+    | .arr l es => do
+      let (es', r1) ← ofFArgs fuel k rs es
+      pure (.arrLit l es', r1)
+    | .map l kvs => do
+      -- key, value, key, value, … in source order
+      let (es', r1) ← ofFArgs fuel k rs (kvs.flatMap fun kv => [kv.1, kv.2])
+      pure (.mapLit l es', r1)
+    | .index l c i .get => do
+      let (c', r1) ← ofFE fuel k rs c
+      let (i', r2) ← ofFE fuel (k + (constsE c').length) r1 i
+      pure (.index l c' i', r2)
+    | .assign _ (.index l c i .set) rhs => do
+      -- the right-hand side is compiled first, then the container and the index
+      let (e', r1) ← ofFE fuel k rs rhs
+      let (c', r2) ← ofFE fuel (k + (constsE e').length) r1 c
+      let (i', r3) ← ofFE fuel (k + (constsE e').length + (constsE c').length) r2 i
+      pure (.setIndex l c' i' e', r3)
     | .fn lf fname params body => ofFn fuel k rs fname params body lf
     | _ => none
 termination_by structural fuel => fuel
